@@ -184,8 +184,8 @@ class Interp:
                 self.block(s.body)
             else:
                 self.block(s.orelse)
-        elif isinstance(s, ast.While):
-            # one iteration: the body *is* the decision
+        elif isinstance(s, ast.While) and self.while_once:
+            # one iteration: the body *is* the decision (decision tables of loop guards)
             if self.truth(self.ev(s.test)):
                 self.out.loop_entered = True
                 try:
@@ -196,6 +196,24 @@ class Interp:
                     pass
             else:
                 self.out.loop_entered = False
+        elif isinstance(s, ast.While):
+            # concrete execution of the loop (work lists ...): bounded, anything longer is not modelled
+            n_iter = 0
+            broke = False
+            while self.truth(self.ev(s.test)):
+                n_iter += 1
+                if n_iter > 2048:
+                    raise Unmodelled(f'while-loop at line {s.lineno} runs more than 2048 iterations on the abstract input')
+                try:
+                    self.block(s.body)
+                except _Break:
+                    broke = True
+                    break
+                except _Continue:
+                    continue
+            self.out.loop_entered = n_iter > 0
+            if not broke and s.orelse:
+                self.block(s.orelse)
         elif isinstance(s, ast.For):
             it = self.ev(s.iter)
             if isinstance(it, (Opaque, Ref, Rec)) or not hasattr(it, '__iter__'):
@@ -257,6 +275,10 @@ class Interp:
             finally:
                 pass
             self.block(s.finalbody)
+        elif isinstance(s, ast.FunctionDef) and not s.decorator_list and self.scope_fn is not None \
+                and any(n_ is s for n_ in ast.walk(self.scope_fn)):
+            # definition of a local helper: nothing happens now; calls of it are inlined as closures (see call())
+            pass
         else:
             raise Unmodelled(f'statement {type(s).__name__} at line {s.lineno}')
 
@@ -302,14 +324,24 @@ class Interp:
         else:
             raise Unmodelled(f'store target {type(t).__name__}')
 
-    @staticmethod
-    def truth(v):
+    while_once = False      # True: a while statement is one guarded iteration (decision table of its test)
+    dunder_truth = True    # True: the truth value of an abstract instance is decided by inlining its class's __bool__
+
+    def truth(self, v):
         if isinstance(v, (Opaque, Ref)):
             raise Unmodelled(f'truth value of symbolic {v!r}')
         if isinstance(v, Rec):
             # abstract value instance with a known payload: truth of the payload (ExcelType.__bool__)
             if v.f.get('truthy') is not None:
                 return bool(v.f['truthy'])
+            if self.dunder_truth and isinstance(v.f.get('cls'), str):
+                cm_, meth_ = self.a.res.class_attr(v.f['cls'], '__bool__')
+                if isinstance(meth_, ast.FunctionDef):
+                    sub_sc, self.self_class = self.self_class, v.f['cls']
+                    try:
+                        return bool(self._inline(cm_, meth_, [v], {}))
+                    finally:
+                        self.self_class = sub_sc
             return True
         return bool(v)
 
